@@ -25,6 +25,9 @@ CHECKS["C04"] = ("exploration", "deterministic simulation: complete field sweep 
 CHECKS["C05"] = ("exploration", "deterministic simulation: replaying/reordering adversary over sessions at 16/32-bit counter boundaries; reference acceptance predicate (independent MIC + window arithmetic) compared per delivered frame and per state",
  "Each frame delivered in RX1/RX2/RXC is judged at delivery time by an independent implementation of the statement (size limit of the window's data rate, unique N in (last, last+16384], MIC by the reference codec); the device's reaction is read from its responses, downlink queue, stored counter and next uplink. Counter classes at every boundary are probes with hit counts in the evidence. Sampling.",
  "Trusted: reference codec and RP002 size tables, the mapping from trace to per-frame reaction (Class C gap frames are only observable through state and payloads). Frames the statement is silent about are not generated.", "6 (C05)")
+CHECKS["C10"] = ("exploration", "deterministic simulation with a simulated clock: every setup_rx / RxRequest RfConfig and Timer::at / TimeoutRequest argument compared with RP002 (tables as formulas) on the parameters in force before the transmission",
+ "After every uplink of seeded histories (region-valid MAC commands and JoinAccept settings that move RX1DROffset, RX2, RxDelay, DlChannel mappings, data rate; both front-ends' timing arithmetic with varied board lead/offset and tx() return values; nb set_datarate between TX and RX1) the RX1/RX2/RXC configurations and timer requests must equal the reference. Sampling; the (region, uplink DR, offset, RX2 override, delay) tuples reached are counted in the evidence.",
+ "Trusted: refregion.rs (RP002-1.0.3 tables written independently, self-tested on spot values), the H1 snapshot as the source of the parameters in force (C08/C11 check that it follows the network's commands). Ambiguous RX1 table entries accept any region-defined LoRa data rate.", "6 (C10)")
 PENDING = {}
 
 def main():
